@@ -10,7 +10,7 @@ for id in "${ids[@]}"; do
 import json,re,sys
 m=json.load(open('seeded/$id/meta.json'))
 c=re.match(r'(C\d\d) ', m['caught_by']); print(c.group(1) if c else m['property'])")
-  out=$(tools/seed_try.sh seeded/$id/patch.diff "$chk" 2>&1)
+  out=$(tools/seed_try.sh /verif/seeded/$id/patch.diff "$chk" 2>&1)
   if echo "$out" | grep -q "PATCH DOES NOT APPLY"; then echo "$id $chk PATCH-DOES-NOT-APPLY";
   elif echo "$out" | grep -q "VIOLATION property=$chk"; then echo "$id $chk caught $(echo "$out" | grep -c 'signature:') signatures";
   else echo "$id $chk MISSED"; fi
